@@ -23,7 +23,7 @@ memset(void *s, int c, size_t n)
     voidp *p = s;
     size_t w = n / sizeof(voidp);
     __CPROVER_assert(c == 0 && n % sizeof(voidp) == 0, "H4V: memset model domain (zeroing whole pointer slots)");
-#ifndef DA_MS_NOHAVOC
+#if !defined(DA_MS_NOHAVOC) && !defined(H4V_CEX) /* counterexample mode only looks for one concrete input */
     __CPROVER_havoc_slice(s, n);
 #endif
     if (0 <= g_ms_k && (size_t)g_ms_k < w)
@@ -73,16 +73,7 @@ void *DAget_elem(dynarr_p arr_ptr, int elem)
     __CPROVER_ensures((elem >= 0 && arr_ptr != NULL && elem < arr_ptr->num_elems) ==>
                       __CPROVER_return_value == arr_ptr->arr[elem]);
 
-#ifdef DA_NULLCASE /* no array: failure value, nothing touched (kept apart: no old() on NULL) */
-int DAset_elem(dynarr_p arr_ptr, int elem, void *obj)
-    __CPROVER_requires(arr_ptr == NULL)
-    __CPROVER_assigns()
-    __CPROVER_ensures(__CPROVER_return_value == FAIL);
-void *DAdel_elem(dynarr_p arr_ptr, int elem)
-    __CPROVER_requires(arr_ptr == NULL)
-    __CPROVER_assigns()
-    __CPROVER_ensures(__CPROVER_return_value == NULL);
-#else
+#ifndef DA_NULLCASE
 int DAset_elem(dynarr_p arr_ptr, int elem, void *obj)
     __CPROVER_requires(arr_ptr != NULL && DA_WF(arr_ptr) && DA_GHOSTS_TIED(arr_ptr, elem))
     __CPROVER_requires(elem <= DA_MAXELEM)
@@ -118,6 +109,15 @@ void *DAdel_elem(dynarr_p arr_ptr, int elem)
                       arr_ptr->arr == __CPROVER_old(arr_ptr->arr) &&
                       arr_ptr->incr_mult == __CPROVER_old(arr_ptr->incr_mult))
     __CPROVER_ensures(g_o != elem ==> DA_AT(arr_ptr, g_o) == g_ov);
+#else /* no array: failure value, nothing touched (kept apart: no old() on NULL) */
+int DAset_elem(dynarr_p arr_ptr, int elem, void *obj)
+    __CPROVER_requires(arr_ptr == NULL)
+    __CPROVER_assigns()
+    __CPROVER_ensures(__CPROVER_return_value == FAIL);
+void *DAdel_elem(dynarr_p arr_ptr, int elem)
+    __CPROVER_requires(arr_ptr == NULL)
+    __CPROVER_assigns()
+    __CPROVER_ensures(__CPROVER_return_value == NULL);
 #endif
 
 int DAsize_array(dynarr_p arr)
